@@ -361,5 +361,4 @@ package tcp
 //@   ensures implies(result, ghost(tcpSegs) == old(ghost(tcpSegs)))
 //@   ensures implies(!result, ghost(tcpSegs) == old(ghost(tcpSegs)) + 1 && ghost(lastTCPFlags) == int(flagRst | flagAck) && ghost(lastTCPSeq) == int(uint32(old(s.ackNumber)))
 //@             && ghost(lastTCPAck) == int(uint32(old(s.sequenceNumber) + seqnum.Value(old(s.logicalLen())))))
-
-//@   modifies everything_but("protocol/transport/tcp.sender", "protocol/transport/tcp.receiver", "protocol/transport/tcp.endpoint", "protocol/transport/tcp.segment"), structfamily("protocol/transport/tcp.endpoint", "segmentQueue"), ghost(tcpSegs), ghost(lastTCPFlags), ghost(lastTCPSeq), ghost(lastTCPAck), ghost(sentNonFin), ghost(sentFin)
+//@   modifies modset(NETSEND)
